@@ -250,12 +250,21 @@ func (t *basicTaskBase) ensureBasicTaskKilled() (err error) {
 	if t.Tci.ControlMode == controlmode.HOOK {
 		return nil
 	}
-	if t.taskCmd.ProcessState.Exited() {
+	if t.taskCmd.ProcessState != nil {
+		// Wait() has returned: the child is gone (exited or died of a signal) and its
+		// reaper has already run, there is nothing left to kill or to tell the reaper
+		return nil
+	}
+	if t.taskCmd.Process == nil {
+		// Start() failed: there never was a child
 		return nil
 	}
 
-	// Preparing to kill running task
-	t.pendingFinalTaskStateCh <- mesos.TASK_KILLED
+	// Preparing to kill running task; never block the transition on a reaper that is not there
+	select {
+	case t.pendingFinalTaskStateCh <- mesos.TASK_KILLED:
+	default:
+	}
 
 	// TODO: SIGTERM before SIGKILL
 
